@@ -13,6 +13,12 @@ LEVEL_TEXT = ("Static analysis of /repo's current source (go/packages + go/ssa, 
 
 # id -> (technique, what is decided, design_ref)
 CLAIMED = {
+    "C04": ("symbolic evaluation of all acyclic paths of Check/accept as exact linear forms with store-to-load forwarding (abstract interpretation over branch literals, no concrete inputs, no solver), index-agreement of Bit/SetBit, affine mask-width check, purity (effects) of Check",
+            "accepting paths carry seq<=max and newer-or-(in-window and bit clear at that distance); refusing paths carry a legitimate reason; exact fold boundaries; SetBit once at the tested distance; head moves only for newer numbers after the matching shift; word access guarded by i<n; truncation mask width >= n%64",
+            "DESIGN.md section 3 C04"),
+    "C05": ("same path-literal engine as C04: both directions of the acceptance predicate per path, purity of Check (effects), accept's result on the head-moving path",
+            "Check writes nothing; acceptance predicate of every path equals the sliding-window rule (literal sets), unsigned distances in the plain detector, exact half-space fold in the wrapping one; accept returns true exactly when it moved the head (wrapping detector). Late-zero 'latest' and 2^64 overflow deviations are value-level and not decided",
+            "DESIGN.md section 3 C05"),
     "C01": ("taint (payload), per-call/per-iteration path counting of forwards, drop-edge classification against a frozen table, FIFO shape + call-graph single consumer, provenance/dominance of delivered and pushed chunks, channel discipline of wake-up and receive queues, no-goroutine rule on the datagram path, plus the NAT rules of C02/C03",
             "copy-on-write; at most one forward per datagram per hop; loss only on enumerated edges; FIFO + single consumer; demultiplexing by destination; NAT result is what is forwarded; wake-up token and send-after-close discipline; synchronous hand-over; NAT mapping/filtering rules",
             "DESIGN.md section 3 C01"),
